@@ -18,15 +18,15 @@ RULE = ("cases = one script line each over {subscribe, accept, reject, handler r
         "a subscription whose accept reported success on that connection, cap, slot return incl. abandoned calls, a subscribe is "
         "never refused with -32006 on a connection whose OWN live count is below the cap (subscribe-refused-below-own-cap when other "
         "connections hold subscriptions at that moment, slot-not-returned otherwise), stays "
-        "active) is evaluated on the implementation output alone.  ENTRY POINT (script token E<server|tower>, default server): the "
+        "active) is evaluated on the implementation output alone.  ENTRY POINT (script token E<server|tower|towermw>, default server): the "
         "multi-connection families -- the targeted own-cap family (A fills its cap and is refused one more; B, holding nothing, "
         "subscribes up to ITS OWN cap; A ends k by reject / drop pending / return / abandon / unsubscribe + last sink dropped / connection drop; B still at its "
         "own count is still refused; A starts k new ones; B ends j and starts j; a third connection that holds nothing is admitted; caps 1..3), "
         "random walks over 2..3 connections, the exhaustive short scripts with 2 connections, the 2-connection corpus and abandon-family "
-        "lines -- run each script under BOTH entry points: `server` = Server::builder().build(addr) + Server::start(module); `tower` = ONE "
+        "lines -- run each script under ALL THREE entry points: `server` = Server::builder().build(addr) + Server::start(module); `tower` = ONE "
         "TowerServiceBuilder (ServerBuilder::to_service_builder(), same config: cap, id provider, abandon middleware) per history, CLONED "
         "for every accepted TCP connection (.clone().build(methods, stop_handle)) and served from the harness's own accept loop with "
-        "serve_with_graceful_shutdown; the model is entry-point independent (one semaphore per connection, theorem "
+        "serve_with_graceful_shutdown; `towermw` = the same, but the shared builder carries no rpc middleware and every connection's service is built as shared.clone().set_rpc_middleware(mw).build(..) without an explicit connection_id (the connection ids, which key the subscription table, must still come from the one shared counter: an unsubscribe naming another connection's id answers false); the model is entry-point independent (one semaphore per connection, theorem "
         "C06_cap_is_per_connection) and ignores the token.  distinct non-trivial = distinct result lines in which at "
         "least one subscribe call reached the handler.  "
         "THREADS (engine submt; a STRESS TEST in support of the search for a concrete failing schedule, not an enumeration): cases = one "
@@ -41,7 +41,7 @@ RULE = ("cases = one script line each over {subscribe, accept, reject, handler r
         "subscriber table takes a blocking lock(), read from the source by tools/translators/table_ops.py, hence the truth table and "
         "the slot accounting hold for ALL thread-level traces) and C06_cap_under_contention")
 TRUSTED = [
-    "harness, entry point `tower`: the accept loop of harness/src/bin/subhist.rs (one TowerService per accepted TCP connection, built from a clone of the "
+    "harness, entry points `tower` / `towermw`: the accept loop of harness/src/bin/subhist.rs (one TowerService per accepted TCP connection, built from a clone of the "
     "history's single TowerServiceBuilder; tower::service_fn cloning that service per request; TCP_NODELAY set by the harness); its outputs were "
     "byte-identical to the `server` entry point on every script of the quick and thorough case sets",
     "translator tools/translators/sub_limiter.py: textual (regex + brace matching over the comment-stripped server/src/**/*.rs): every `BoundedSubscriptions::new(` must sit "
